@@ -102,10 +102,15 @@ def real_apply(ns, op):
         return ("err", type(x).__name__ + ":" + str(x)[:60])
 
 
-def run_trial(opset, initial, preempt=None, choices=None, storage=None):
+def run_trial(opset, initial, preempt=None, choices=None, storage=None, servertype=None):
     """-> (sched, records, final_state) ; records: list of (thread, op, call_step, return_step, result)"""
-    from Pyro5 import nameserver
+    from Pyro5 import nameserver, config
     sch = S.Sched(FILES, preempt=preempt, choices=choices)
+    # the name server object is used by several threads whatever kind of daemon serves it (auto-clean thread, broadcast server,
+    # an application that embeds it): the configured server type must not matter
+    old_servertype = config.SERVERTYPE
+    if servertype:
+        config.SERVERTYPE = servertype
     # every lock the name server module creates - whenever it creates it - is a scheduler-aware lock of the same kind
     real_threading = nameserver.threading
     shim = types.ModuleType("threading_shim")
@@ -117,6 +122,7 @@ def run_trial(opset, initial, preempt=None, choices=None, storage=None):
         return _run_trial(nameserver, sch, opset, initial, storage)
     finally:
         nameserver.threading = real_threading
+        config.SERVERTYPE = old_servertype
 
 
 def _run_trial(nameserver, sch, opset, initial, storage_kind=None):
@@ -240,7 +246,7 @@ def check_trial(opset, initial, sch, records, final):
 def run_case(case):
     opset = [[tuple(o) for o in ops] for ops in case["ops"]]
     sch, records, final = run_trial(opset, case["initial"], preempt={int(k): v for k, v in case.get("preempt", {}).items()} or None,
-                                    choices=case.get("choices"), storage=case.get("storage"))
+                                    choices=case.get("choices"), storage=case.get("storage"), servertype=case.get("servertype"))
     return check_trial(opset, case["initial"], sch, records, final)
 
 
@@ -306,7 +312,9 @@ def SHARDS(tier):
     sh = [{"part": "enum", "cat": i, "preemptions": k} for i in range(len(CATALOGUE))]
     sh += [{"part": "enum", "cat": i, "preemptions": 2 if sum(len(ops) for ops in opset) <= 2 else 1, "storage": "sql"} for i, (_init, opset) in enumerate(CATALOGUE)
            if any(o[0] == "lookup" for ops in opset for o in ops)]
+    sh += [{"part": "enum", "cat": i, "preemptions": 1, "servertype": "multiplex"} for i in range(len(CATALOGUE))]
     sh += [{"part": "random"} for _ in range(4 if tier == "quick" else 8)]
+    sh += [{"part": "random", "servertype": "multiplex"} for _ in range(1 if tier == "quick" else 3)]
     sh += [{"part": "random", "storage": "sql"} for _ in range(1 if tier == "quick" else 3)]
     return sh
 
@@ -318,7 +326,7 @@ def run(ctx):
         opset_l = [[list(o) for o in ops] for ops in opset]
 
         def run_with(preempt):
-            sch, records, final = run_trial(opset, initial, preempt=preempt or None, storage=sh.get("storage"))
+            sch, records, final = run_trial(opset, initial, preempt=preempt or None, storage=sh.get("storage"), servertype=sh.get("servertype"))
             sch._records, sch._final = records, final
             return sch
         n = 0
@@ -326,8 +334,10 @@ def run(ctx):
             case = {"ops": opset_l, "initial": list(initial), "preempt": {str(k): v for k, v in preempt.items()}}
             if sh.get("storage"):
                 case["storage"] = sh["storage"]
+            if sh.get("servertype"):
+                case["servertype"] = sh["servertype"]
             viols = check_trial(opset, initial, sch, sch._records, sch._final)
-            ctx.observe(case, viols, nontrivial=sch.preempted_in_files > 0, labels=["enum", "preemptions:%d" % len(preempt)] + (["storage:sqlite"] if sh.get("storage") else []))
+            ctx.observe(case, viols, nontrivial=sch.preempted_in_files > 0, labels=["enum", "preemptions:%d" % len(preempt)] + (["storage:sqlite"] if sh.get("storage") else []) + (["config:SERVERTYPE=multiplex"] if sh.get("servertype") else []))
             n += 1
             if ctx.violations and n > 50:
                 break
@@ -337,5 +347,7 @@ def run(ctx):
         strat = random_case()
         if sh.get("storage"):
             strat = strat.map(lambda c: dict(c, storage=sh["storage"]))
+        if sh.get("servertype"):
+            strat = strat.map(lambda c: dict(c, servertype=sh["servertype"]))
         ctx.search(strat, run_case, ctx.n(800, 6000) if not sh.get("storage") else ctx.n(250, 2000), nontrivial=lambda c: len(c["choices"]) > 0,
                    labels=lambda c: ["random", "threads:%d" % len(c["ops"])] + (["storage:sqlite"] if c.get("storage") else []), name="nsatomic", max_rounds=4)
